@@ -60,4 +60,13 @@ Why(e) == LET c == e.case IN
   ELSE IF \E j \in DOMAIN e.reqs : e.reqs[j].body # Body(c) THEN "body"
   ELSE IF e.defaultHeaderAfter # (IF c.hdrNil THEN <<>> ELSE c.hdr) THEN "default-header-mutated"
   ELSE IF \E j \in DOMAIN e.results : e.results[j].panic THEN "panic" ELSE "result"
+\* ---- body values of other types (nil slice, empty slice, nil map, empty map, ...): every constructor with a body hands exactly the
+\* given body to its serializer, once per evaluation, and the request carries the serializer's output
+\* b = [part |-> "bodykind", ctor, kind, calls, seen (Go %T:%v of what the serializer got), body, err]
+BodyRepr(kind) == CASE kind \in {"nilslice", "emptyslice", "custom-nilslice"} -> [t |-> "[]string", v |-> "[]"]
+                    [] kind \in {"nilmap", "emptymap"} -> [t |-> "map[string]int", v |-> "map[]"]
+                    [] kind = "slice" -> [t |-> "[]string", v |-> "[a b]"]
+                    [] kind = "zeroint" -> [t |-> "int", v |-> "0"]
+JudgeBodyKind(b) == LET r == BodyRepr(b.kind) IN
+  /\ ~b.err /\ b.calls = 1 /\ b.seen = r.t \o ":" \o r.v /\ b.body = "SER:" \o r.v
 =============================================================================
